@@ -326,14 +326,42 @@ func classify(j *job, r result) []string {
 }
 
 var reHugeInt = regexp.MustCompile(`\d{10,}`)
+var reLargeQuantity = regexp.MustCompile(`\d{7,}|\d[eE]\+?\d{1,3}\b`)
+
+// hugeRequest: the job itself names a large quantity (a number of 7+ digits, an exponent, a very long argument)
+// or feeds csvq more than 32 KB: running out of 3 GB is then no evidence of a defect.
+func hugeRequest(j *job) bool {
+	for _, a := range j.argv() {
+		if len(a) > 3000 || reLargeQuantity.MatchString(a) {
+			return true
+		}
+	}
+	if len(j.Stdin) > 32<<10 {
+		return true
+	}
+	for _, f := range j.Files {
+		if f.Kind == "" && len(f.Data) > 32<<10 && j.usesFile(f.Name) {
+			return true
+		}
+	}
+	return false
+}
 var reHugeFrame = regexp.MustCompile(`(?i)\b\d{10,}\s+(PRECEDING|FOLLOWING)`)
 
 // judge: the laws violated, and observations that are counted but are not violations of C19.
 func judge(j *job, r result) (laws []string, notes []string) {
 	out := r.all()
 	if strings.Contains(out, "out of memory") || strings.Contains(out, "cannot allocate memory") {
-		// the program asked for more memory than the harness allows a child (ulimit -v): resource exhaustion
-		return nil, []string{"observed:out_of_memory_under_the_harness_limit(not a law)"}
+		if hugeRequest(j) {
+			// the program asked for more memory than the harness allows a child (ulimit -v): resource exhaustion
+			return nil, []string{"observed:out_of_memory_under_the_harness_limit(not a law)", "observed_oom:" + trunc(shJoin(j.argv()), 140)}
+		}
+		// 3 GB for a small program over small data that names no large quantity: unbounded growth
+		t := j.Group
+		if len(j.Tags) > 0 {
+			t = j.Tags[0]
+		}
+		return []string{"memory:unbounded_growth:" + t}, nil
 	}
 	if r.timedOut {
 		if j.BlockOK {
@@ -840,8 +868,12 @@ func run(seed int64, n int, dir string, _ []string) {
 		if done == 0 {
 			jobs = append(jobs, corpusJobs()...)
 			jobs = append(jobs, jsonPathJobs()...)
+			jobs = append(jobs, grammarJobs(g)...)
+			jobs = append(jobs, raggedJobs()...)
+			jobs = append(jobs, lockJobs()...)
 			jobs = append(jobs, fsJobs(g)...)
 		}
+		jobs = append(jobs, accessPathJobs(g, budget*3/100, done == 0)...)
 		jobs = append(jobs, stmtJobs(g, budget*18/100)...)
 		jobs = append(jobs, fnJobs(g, budget*47/100)...)
 		jobs = append(jobs, dataJobs(g, budget*30/100)...)
